@@ -69,6 +69,8 @@ BOXES = {
     # 'scale' worlds: larger dimensions, every dimension with its own bounds
     "B_12d": [(-5.0 + 0.5 * j, 5.0 + 1.5 * j) if j % 3 else (-0.1 * (j + 1), 0.2 * (j + 1)) for j in range(12)],
     "B_30d": [(-3.0 - 0.25 * j, 2.0 + 0.5 * j) for j in range(30)],
+    # bounds for which lower + (upper - lower) is one ulp ABOVE upper in floating point (normalised-coordinate arithmetic overshoots)
+    "B_ulp": [(-0.1, 0.3), (-1.3, 2.6)],
     "B_1d": [(-2.0, 6.0)],
     "B_5d": [(-1.0, 2.0), (0.5, 1.5), (-3.0, -1.0), (10.0, 12.0), (-0.5, 0.5)],
 }
